@@ -61,7 +61,9 @@ class C11(object):
                    'contraction class has no alias/derived rows (their rows have sup-norm 1)']
     required_counters = ('switch.failed_loud', 'switch.sweeps_checked', 'switch.state_after_failure_checked',
                          'contraction.solved', 'names.rejected', 'decl.rejected',
-                         'switch.zero_tolerance_requested')
+                         'switch.zero_tolerance_requested',
+                         'decl.rejected_again_on_a_second_attempt',
+                         'switch.failing_period_traced')
 
     def n_cases(self, tier):
         self._names = all_reserved()
@@ -84,7 +86,8 @@ class C11(object):
                     'cap': rng.choice([20, 50, 200, 400]) if m == 4 else rng.choice([0, 1, 2, 5, 11, 12, 20, 50]),
                     # incl. a requested tolerance of exactly 0 (an exact fixed point or a loud failure, nothing in between)
                     'tol': 0.0 if m == 4 else 10 ** rng.uniform(-10, -2),
-                    'reduction': rng.random() < 0.5, 'stepwise': rng.random() < 0.4, 'with_lag': rng.random() < 0.75}
+                    'reduction': rng.random() < 0.5, 'stepwise': rng.random() < 0.4, 'with_lag': rng.random() < 0.75,
+                    'trace_failing_period': m == 3}
         if m in (5, 6, 7):
             n = rng.randint(1, 12)
             spec = G.gen_affine(rng, n_simul=n, rho=rng.choice([0.8, 0.8, 0.79, 0.5, 0.2]), tol=None,
@@ -193,6 +196,8 @@ class C11(object):
         s.AddFunction('boomv', boomv)
         s.MaxIterations = cap
         s.ParameterErrorTolerance = case['tol']
+        if case.get('trace_failing_period'):
+            s.TraceStep = case['p']          # the diagnostic option points at the very period that cannot be solved
         s.ParseString(text)
         return s
 
@@ -245,6 +250,8 @@ class C11(object):
         rec.count('switch.sweeps_checked', len(counts))
         if case['tol'] == 0.0:
             rec.count('switch.zero_tolerance_requested')
+        if case.get('trace_failing_period'):
+            rec.count('switch.failing_period_traced')
         ts = dict(s.TimeSeries)
         exo = {'A', 'k'}
         if outcome == 'returned':
@@ -387,6 +394,22 @@ class C11(object):
         n_series = len(mod.EquationSolver.TimeSeries)
         if outcome != 'returned' and n_series == 0:
             rec.count('decl.rejected')
+            if stage == 'main':
+                # a caller who catches the rejection and calls main() again on the same objects is rejected again,
+                # every time, still without series
+                for attempt in (2, 3):
+                    again = 'returned'
+                    try:
+                        with contextlib.redirect_stdout(io.StringIO()):
+                            mod.main()
+                    except Exception as e:
+                        again = type(e).__name__
+                    rec.count('decl.rejected_again_on_a_second_attempt')
+                    if again == 'returned' or len(mod.EquationSolver.TimeSeries) != 0:
+                        rec.violate('ill_formed_declaration_accepted_on_a_later_attempt',
+                                    {'which': which, 'attempt': attempt, 'outcome': again,
+                                     'n_series': len(mod.EquationSolver.TimeSeries)})
+                        break
         else:
             rec.violate('ill_formed_declaration_not_rejected', {'which': which, 'outcome': outcome, 'stage': stage,
                                                                 'n_series': n_series})
